@@ -445,7 +445,8 @@ def suites(rng, tier):
     dd = {"cases": len(ld)}
     return [{"suite": "privsim", "name": "privsim-levelC", "lines": lp, "distribution": dp},
             {"suite": "delevsim", "name": "delevsim-levelC", "lines": ld, "distribution": dd},
-            {"suite": "txval", "name": "deleverage-bracket-shapes", "lines": TG.val_exhaustive(rng, "delev", 4 if tier != "thorough" else 5),
+            {"suite": "txval", "name": "deleverage-bracket-shapes",
+             "lines": TG.val_exhaustive(rng, "delev", 4 if tier != "thorough" else 5) + TG.val_exhaustive(rng, "delev2", 5 if tier != "thorough" else 6),
              "distribution": {"alphabet": TG.ALPHABETS["delev"], "note": "'bracketed like a liquidation': every instruction list up to the bound over start/end_deleverage, withdraw, repay, record init, borrow, compute budget, Kamino refresh, Jupiter and a liquidation end, given to the real validate_instructions with the deleverage discriminators; accepted lists must be skippable* start listed* end"}}]
 
 
